@@ -13,7 +13,9 @@ Bounded: every message command and UID variant inside EXAMINE (and inside a read
 stored state of all mailboxes dumped before/after.
 """
 from pyvc.prop import Property, Bounded
-from . import session as SES, state as ST, selected as SELM
+from . import session as SES, state as ST, selected as SELM, dictmbx as D
+from pyvc.engine import Contract
+from pyvc.values import *
 from harness.e2e_readonly import bounded_readonly
 
 REG = dict(SES.REG)
@@ -23,9 +25,26 @@ _session = [c for c in SES.make('C12') if c.qualname.split('.')[-1] in (
     'update_flags', 'expunge_mailbox', 'copy_messages', 'move_messages', 'fetch_messages', 'append_messages',
     'select_mailbox', 'check_mailbox')]
 
+# ---- the dict backend's read path changes nothing (discharges, for this backend, the assumption that get() is an
+#      effect-free call of the abstract backend)
+dict_get = Contract(
+    'C12', D.F, 'MailboxData.get', variant='pure', params=dict(self=D.MBX, uid=INT, cached_msg=D.Msg),
+    calls=dict(D.BASE_CALLS), ghost_init=D.ghost_init, returns=D.Msg, modifies=[],
+    requires=[('cached_allocated', lambda s: s.ghost('alloc.Msg').has(s.cached_msg))],
+    ensures=[('mailbox_contents_and_log_untouched', lambda s: (s.self._messages == s.old.self._messages) &
+              (s.self._max_uid == s.old.self._max_uid) &
+              (s.self._mod_sequences._highest == s.old.self._mod_sequences._highest)),
+             ('a_stored_message_is_handed_out_as_it_is', lambda s: implies(
+                 s.old.self._messages.has(s.uid), s.result == s.old.self._messages[s.uid])),
+             ('an_absent_one_is_answered_by_a_fresh_expunged_copy', lambda s: implies(
+                 ~s.old.self._messages.has(s.uid), s.wrap(s.result).expunged & ~s.old.ghost('alloc.Msg').has(s.result)))],
+    raises_only=(IndexError, TypeError))
+_dict_reg = dict(D.BASE_REGISTRY)
+
 PROPERTY = Property(
     'C12', 'A read-only selection never changes the mailbox',
-    contracts=_session + [ST.do_fetch, ST.do_close, SELM.any_selected], registry=REG,
+    contracts=_session + [ST.do_fetch, ST.do_close, SELM.any_selected, dict_get],
+    registry=dict(list(_dict_reg.items()) + list(REG.items())),
     bounded=[Bounded('every message command inside a read-only selection (real server)',
                      '25 commands (FETCH incl. BODY[] and RFC822, STORE x5 incl. FLAGS () and non-permitted flags, '
                      'EXPUNGE, UID EXPUNGE, COPY/MOVE out, into itself and into a read-only mailbox, SEARCH, APPEND '
@@ -35,6 +54,7 @@ PROPERTY = Property(
                      bounded_readonly('C12'), decisive=False)],
     level='proof', design_ref='6 C12',
     trusted_base=['the backend is abstract: its calls are effects with no behaviour of their own (a backend that '
-                  'mutates inside get()/find() would not be seen)',
+                  'mutates inside get()/find() would not be seen); for the dict backend MailboxData.get is proved to change '
+                  'nothing (find() is a loop over get())',
                   'mailbox ids identify mailboxes; the name a selection was made under finds its mailbox'],
 )
